@@ -111,6 +111,192 @@ class SimE(Simulator):
         ops.append(["report"])
         return {"cfg": {"recovery": False, "runlog_every": 2}, "method": method, "ops": ops}
 
+    # -- profile: well-formed generated methods, no requests, PV trajectories (C02, C03, C04, C05, C41)
+    def _gen_exec(self, rng: random.Random, tier: str) -> dict:
+        always = []
+        r = rng.random()
+        if r < 0.25:
+            always = ["macro"]
+        elif r < 0.5:
+            always = ["watch", "alarm"]
+        elif r < 0.7:
+            always = ["block", "threshold", "wait", "base"]
+        feats = gen.pick_features(rng, always=always, never=["pause", "hold"] if rng.random() < 0.7 else [])
+        method = gen.gen_method(rng, feats, max_lines=rng.randint(3, 25), time_scale=0.5)
+        ops: list[list] = [["user", "Start"]]
+        if rng.random() < 0.4:
+            ops.append(["volrate", rng.choice([0.05, 0.2, 0.5])])
+        total = 0
+        budget = rng.choice([40, 80, 150])
+        while total < budget:
+            n = rng.choice([1, 2, 3, 5, 8, 13])
+            ops.append(["tick", n, 0.1])
+            total += n
+            if rng.random() < 0.5:
+                name = rng.choice(list(gen.PV_VALUES))
+                ops.append(["pv", name, rng.choice(gen.PV_VALUES[name])])
+        ops.append(["settle", 300])
+        ops.append(["end_stop"])
+        return {"cfg": {"recovery": False, "runlog_every": 4, "wellformed": True}, "method": method, "ops": ops}
+
+    # -- profile: live edits (and injections) at drawn ticks (C01, C14)
+    def _gen_edit(self, rng: random.Random, tier: str) -> dict:
+        feats = gen.pick_features(rng, never=["pause", "hold", "simulate"], p=0.45)
+        method = gen.gen_method(rng, feats, max_lines=rng.randint(3, 18), time_scale=0.5)
+        ops: list[list] = [["user", "Start"]]
+        n_req = rng.randint(1, 4)
+        uniq = 500
+        for i in range(n_req):
+            ops.append(["tick", rng.choice([1, 2, 3, 4, 5, 7, 10, 15, 25]), 0.1])
+            if rng.random() < 0.4:
+                name = rng.choice(list(gen.PV_VALUES))
+                ops.append(["pv", name, rng.choice(gen.PV_VALUES[name])])
+            r = rng.random()
+            uniq += 10
+            if r < 0.35:
+                ops.append(["edit", "append", 0, [f"Mark: a{uniq}"] + ([f"Set3: {uniq}"] if rng.random() < 0.3 else [])])
+            elif r < 0.45:
+                ops.append(["edit", "append_scope", rng.randint(0, 5), [f"Mark: a{uniq}"]])
+            elif r < 0.6:
+                ops.append(["edit", "change_future", rng.randint(0, 9), f"Mark: c{uniq}"])
+            elif r < 0.68:
+                ops.append(["edit", "delete_future", rng.randint(0, 9), None])
+            elif r < 0.8:
+                ops.append(["edit", "change_started", rng.randint(0, 9), f"Mark: x{uniq}"])
+            elif r < 0.85:
+                ops.append(["edit", "same", 0, None])
+            else:
+                ops.append(["inject", gen.gen_snippet(rng, uniq)])
+        ops.append(["tick", rng.choice([3, 10, 30]), 0.1])
+        ops.append(["settle", 300])
+        ops.append(["end_stop"])
+        return {"cfg": {"recovery": False, "runlog_every": 4, "wellformed": True}, "method": method, "ops": ops}
+
+    # -- profile: injections around pauses/holds (C14)
+    def _gen_inject(self, rng: random.Random, tier: str) -> dict:
+        feats = gen.pick_features(rng, never=["pause", "hold", "simulate", "alarm"], p=0.4)
+        method = gen.gen_method(rng, feats, max_lines=rng.randint(2, 14), time_scale=0.5)
+        ops: list[list] = [["user", "Start"]]
+        uniq = 700
+        for i in range(rng.randint(1, 4)):
+            ops.append(["tick", rng.choice([1, 2, 3, 5, 8, 13]), 0.1])
+            r = rng.random()
+            uniq += 10
+            if r < 0.2:
+                ops.append(["user", rng.choice(["Pause", "Hold"])])
+                ops.append(["tick", rng.choice([1, 2]), 0.1])
+                ops.append(["inject", gen.gen_snippet(rng, uniq)])
+                ops.append(["tick", rng.choice([2, 5]), 0.1])
+                ops.append(["user", rng.choice(["Unpause", "Unhold"])])
+                ops.append(["user", rng.choice(["Unpause", "Unhold"])])
+            else:
+                ops.append(["inject", gen.gen_snippet(rng, uniq)])
+                if rng.random() < 0.25:
+                    ops.append(["tick", rng.choice([1, 2]), 0.1])
+                    ops.append(["edit", "append", 0, [f"Mark: a{uniq}"]])
+        ops.append(["tick", 20, 0.1])
+        ops.append(["settle", 200])
+        ops.append(["end_stop"])
+        return {"cfg": {"recovery": False, "runlog_every": 4, "wellformed": True}, "method": method, "ops": ops}
+
+    # -- profile: cancel / force of run-log items at drawn ticks (C12, C04)
+    def _gen_cancelforce(self, rng: random.Random, tier: str) -> dict:
+        feats = gen.pick_features(rng, always=["watch", "wait", "threshold", "uod_long", "pause", "hold"],
+                                  never=["simulate"], p=0.3)
+        method = gen.gen_method(rng, feats, max_lines=rng.randint(3, 16), time_scale=1.0)
+        ops: list[list] = [["user", "Start"]]
+        for i in range(rng.randint(1, 5)):
+            ops.append(["tick", rng.choice([1, 2, 3, 4, 6, 9, 14]), 0.1])
+            if rng.random() < 0.3:
+                name = rng.choice(list(gen.PV_VALUES))
+                ops.append(["pv", name, rng.choice(gen.PV_VALUES[name])])
+            r = rng.random()
+            what = rng.choice(["cancel", "force"])
+            mode = "offered" if r < 0.6 else ("any" if r < 0.93 else "unknown")
+            ops.append([what, rng.randint(0, 30), mode])
+        ops.append(["tick", 25, 0.1])
+        ops.append(["settle", 200])
+        ops.append(["end_stop"])
+        return {"cfg": {"recovery": False, "runlog_every": 3, "wellformed": True}, "method": method, "ops": ops}
+
+    # -- profile: Stop / Restart swept over ticks with long-running and overlapping commands (C10, C11)
+    def _gen_stoprestart(self, rng: random.Random, tier: str) -> dict:
+        feats = gen.pick_features(rng, always=["uod_long", "uod_short"], p=0.4)
+        method = gen.gen_method(rng, feats, max_lines=rng.randint(3, 16), time_scale=0.5)
+        if rng.random() < 0.4:
+            k = rng.randint(0, len(method))
+            method = method[:k] + [["S%03d" % k, rng.choice(["Stop", "Restart"])]] + method[k:]
+        ops: list[list] = [["user", "Start"]]
+        for i in range(rng.randint(1, 4)):
+            ops.append(["tick", rng.choice([1, 2, 3, 4, 5, 6, 8, 11, 17]), 0.1])
+            r = rng.random()
+            if r < 0.25:
+                ops.append(["inject", rng.choice(["LongA: 6", "LongB: 6", "LongC: 5", "Ramp: 5", "Simulate: PV1 = 4 L/h",
+                                                  "Boom", "BadArgs: 1", "BoomInit"])])
+            elif r < 0.35:
+                ops.append(["cancel", rng.randint(0, 20), "offered"])
+            elif r < 0.75:
+                ops.append(["user", rng.choice(["Stop", "Restart", "Restart"])])
+                ops.append(["tick", rng.choice([1, 2, 3, 5]), 0.1])
+                if rng.random() < 0.5:
+                    ops.append(["user", "Start"])
+            else:
+                ops.append(["user", rng.choice(["Pause", "Hold", "Unpause", "Unhold"])])
+        ops.append(["tick", rng.choice([2, 8, 20]), 0.1])
+        ops.append(["end_stop"])
+        return {"cfg": {"recovery": False, "runlog_every": 3, "wellformed": False}, "method": method, "ops": ops}
+
+    # -- profile: malformed methods, random snippets, request storms (C13)
+    def _gen_chaos(self, rng: random.Random, tier: str) -> dict:
+        feats = gen.pick_features(rng, p=0.5)
+        method = gen.gen_method(rng, feats, max_lines=rng.randint(2, 16), time_scale=0.5)
+        junk = ["Mark", "Mark:", ": x", "Block:", "End block", "End blocks", "Watch: PV1 >", "Watch: Nope > 3", "Alarm:",
+                "Watch: PV1 > 3 degC", "Set1: abc", "Set1", "Valve: Half", "Ramp: -1", "Wait: 5", "Wait: x s", "Wait: 1 L",
+                "Base: furlong", "Base", "Call macro: Nope", "Macro:", "Macro: R\n    Call macro: R", "Simulate: Nope = 1",
+                "Simulate: PV1 = x L/h", "Simulate off: Nope", "Run counter: x", "Pause: 1", "Hold: x", "Boom", "BoomInit",
+                "BadArgs: 1", "NoSuchCommand: 1", "1.0", "0.5 ", "    Mark: indented", "\tMark: tab", "Mark: \u00e6\u00f8\u00e5 \u2603",
+                "\u2603: 1", "#", "Restart", "Stop", "Info", "Warning:", "Error: e", "Notify", "Increment run counter: 3",
+                "0.1 0.2 Mark: a", "Mark: a # c", "Mark: a: b", "5 Stop", "Batch:"]
+        for _ in range(rng.randint(1, 5)):
+            k = rng.randint(0, len(method))
+            txt = rng.choice(junk).encode().decode("unicode_escape") if False else rng.choice(junk)
+            txt = txt.replace("\\n", "\n")
+            ind = "    " * rng.choice([0, 0, 0, 1, 2])
+            for j, part in enumerate(txt.split("\n")):
+                method = method[:k + j] + [["J%03d_%d" % (k, rng.randint(0, 999)), ind + part]] + method[k + j:]
+        # ids must be unique
+        seen = set()
+        for i, ln in enumerate(method):
+            if ln[0] in seen:
+                ln[0] = ln[0] + "_%d" % i
+            seen.add(ln[0])
+        ops: list[list] = []
+        if rng.random() < 0.9:
+            ops.append(["user", "Start"])
+        for i in range(rng.randint(2, 8)):
+            ops.append(["tick", rng.choice([1, 2, 3, 5, 8]), rng.choice([0.1, 0.1, 0.05, 0.5])])
+            r = rng.random()
+            if r < 0.3:
+                ops.append(["inject", rng.choice(junk)])
+            elif r < 0.5:
+                ops.append(["user", rng.choice(CONTROL + ["Set1", "Nope", ""])])
+            elif r < 0.6:
+                ops.append([rng.choice(["cancel", "force"]), rng.randint(0, 30), rng.choice(["any", "unknown", "offered"])])
+            elif r < 0.7:
+                ops.append(["edit", rng.choice(["append", "change_future", "delete_future", "same"]), rng.randint(0, 9),
+                            [rng.choice(junk)] if True else None])
+            elif r < 0.8:
+                name = rng.choice(list(gen.PV_VALUES))
+                ops.append(["pv", name, rng.choice(gen.PV_VALUES[name])])
+            elif r < 0.85:
+                for _ in range(rng.randint(2, 5)):
+                    ops.append(["user", rng.choice(CONTROL)])
+        ops.append(["tick", 5, 0.1])
+        ops.append(["user", "Stop"])
+        ops.append(["tick", 4, 0.1])
+        ops.append(["stop_check"])
+        return {"cfg": {"recovery": False, "runlog_every": 2, "wellformed": False}, "method": method, "ops": ops}
+
     def shrink(self, plan: dict) -> Iterator[dict]:
         # drop method lines (whole sub-trees), shorten tick runs, normalise dt
         m = plan["method"]
@@ -190,6 +376,31 @@ class SimE(Simulator):
                 else:
                     w.hw.fail_writes += op[2]
                 fp.append("hwf")
+            elif k == "settle":
+                # run until the main path has ended and no command is executing (bounded), then a few more ticks
+                cap = op[1]
+                n = 0
+                while n < cap:
+                    done = any(e[1] == "method_end" for e in w.events) and not w.uod.command_instances \
+                        and w.state == "Running"
+                    if done:
+                        break
+                    if w.state in ("Stopped",) and n > 3:
+                        break
+                    w.tick(0.1)
+                    n += 1
+                for _ in range(4):
+                    w.tick(0.1)
+                w.method_end_reached = any(e[1] == "method_end" for e in w.events)
+                w.quiescent = w.method_end_reached and not w.uod.command_instances
+                fp.append("settle")
+            elif k == "end_stop":
+                if w.state not in ("Stopped", "Restarting"):
+                    w.user_command("Stop")
+                for _ in range(4):
+                    w.tick(0.1)
+                w.ended_with_stop = w.state == "Stopped"
+                fp.append("endstop")
             else:
                 from . import ops_ext
                 ops_ext.execute(w, op, by_name, res, tape, fp)
